@@ -142,22 +142,110 @@ func operationIDsCollide(spec string) bool {
 }
 
 // tameCopyBuilds generates and builds the tame copy of a case on its own.
-func tameCopyBuilds(c Case) bool {
+func tameCopyBuilds(c Case) bool { return specBuilds(c.Tame, c.Config) }
+
+func specBuilds(spec string, cfg regen.Config) bool {
 	b, err := regen.NewBatch("tame")
 	if err != nil {
 		return false
 	}
 	defer b.Remove()
-	if out := b.Add("t0", []byte(c.Tame), c.Config, nil); out.Class != regen.OK {
+	if out := b.Add("t0", []byte(spec), cfg, nil); out.Class != regen.OK {
 		return false
 	}
 	res := b.Build()
 	return len(res.OK) == 1
 }
 
+// unshareResponseBodies is the counterfactual for one root cause: ogen names the wrapper type of a
+// response that declares headers after the component its body refers to (<Component>Headers,
+// <Component>StatusCodeWithHeaders), so two responses over one body component with different header
+// sets share one Go type. The copy gives every such response a private clone of its body component;
+// nothing else changes. ok reports whether anything was rewritten.
+func unshareResponseBodies(spec string) (string, bool) {
+	var doc map[string]any
+	if jsonUnmarshal([]byte(spec), &doc) != nil {
+		return "", false
+	}
+	comps, _ := doc["components"].(map[string]any)
+	schemas, _ := comps["schemas"].(map[string]any)
+	if schemas == nil {
+		return "", false
+	}
+	n := 0
+	changed := false
+	response := func(r map[string]any) {
+		if h, _ := r["headers"].(map[string]any); len(h) == 0 {
+			return
+		}
+		content, _ := r["content"].(map[string]any)
+		for _, ct := range sortedKeys(content) {
+			media, _ := content[ct].(map[string]any)
+			sch, _ := media["schema"].(map[string]any)
+			ref, _ := sch["$ref"].(string)
+			const pfx = "#/components/schemas/"
+			if !strings.HasPrefix(ref, pfx) {
+				continue
+			}
+			target, ok := schemas[ref[len(pfx):]]
+			if !ok {
+				continue
+			}
+			n++
+			name := fmt.Sprintf("UnsharedBody%d", n)
+			raw, _ := jsonMarshal(target)
+			var clone any
+			_ = jsonUnmarshal(raw, &clone)
+			schemas[name] = clone
+			sch["$ref"] = pfx + name
+			changed = true
+		}
+	}
+	responses := func(rs map[string]any) {
+		for _, code := range sortedKeys(rs) {
+			if r, ok := rs[code].(map[string]any); ok {
+				response(r)
+			}
+		}
+	}
+	if rs, ok := comps["responses"].(map[string]any); ok {
+		responses(rs)
+	}
+	for _, section := range []string{"paths", "webhooks"} {
+		items, _ := doc[section].(map[string]any)
+		for _, p := range sortedKeys(items) {
+			item, _ := items[p].(map[string]any)
+			for _, m := range sortedKeys(item) {
+				op, _ := item[m].(map[string]any)
+				if rs, ok := op["responses"].(map[string]any); ok {
+					responses(rs)
+				}
+			}
+		}
+	}
+	if !changed {
+		return "", false
+	}
+	out, err := jsonMarshal(doc)
+	if err != nil {
+		return "", false
+	}
+	return string(out), true
+}
+
+func sortedKeys(m map[string]any) []string {
+	out := make([]string, 0, len(m))
+	for k := range m {
+		out = append(out, k)
+	}
+	sort.Strings(out)
+	return out
+}
+
 func hasControl(s string) bool {
 	for _, r := range s {
-		if r < 0x20 || r == 0x7f {
+		// characters the Go scanner rejects even inside a comment (NUL, a byte order mark) or that end it
+		if r < 0x20 || r == 0x7f || r == 0xfeff {
 			return true
 		}
 	}
@@ -271,6 +359,17 @@ func runItems(u *vk.Unit, tag string, items []Case, label func(Case) string) {
 			// failure comes from the names alone (spec-derived identifiers are not conflict-checked
 			// against each other and against what the templates emit)
 			cl = "spec-names-not-conflict-checked"
+		}
+		if strings.HasPrefix(cl, "compile:") {
+			base := c.Tame
+			if base == "" {
+				base = c.Spec
+			}
+			if un, ok := unshareResponseBodies(base); ok && specBuilds(un, c.Config) {
+				// counterfactual: with a private copy of the body component per header-carrying
+				// response (and tame names) the package compiles
+				cl = "response-wrapper-type-shared-through-body-component"
+			}
 		}
 		u.Label("compile-failed")
 		u.Report(vk.F(cl, "%s (config %+v): generated package does not compile: %s", c.Name, c.Config, first), c)
